@@ -12,6 +12,8 @@ no bookkeeping left, set-up frames never interleaved with another request's.
 """
 from __future__ import annotations
 
+from ..excfam import family
+
 import asyncio
 import logging
 import random
@@ -386,7 +388,7 @@ def run_shard(desc) -> Acc:
                         r["outcome"] = "cancelled"
                         raise
                     except BaseException as ex:  # noqa: BLE001
-                        r["outcome"] = type(ex).__name__
+                        r["outcome"] = family(ex)
                         r["exc"] = str(ex)[:80]
                     r["t_end"] = clock()
 
@@ -515,7 +517,7 @@ def run_shard(desc) -> Acc:
             except asyncio.CancelledError:
                 outcomes.append("CancelledError")
             except BaseException as ex:  # noqa: BLE001
-                outcomes.append(type(ex).__name__)
+                outcomes.append(family(ex))
 
         tasks = [asyncio.ensure_future(one(i)) for i in range(3)]
         await asyncio.sleep(1.0)
